@@ -146,7 +146,17 @@ def model_only(sh, rng, n):
         try:
             after = table_order(db)
             from pv.clone import clone
+            # an unrelated database is rendered in between, so that nothing remembered from the renderings of
+            # `db` (a cache keyed on equal tables / references, say) can answer for the fresh build
+            decoy, _e = gen.graph_doc(rng, 'chain', 3)
+            table_order(apibuild.build(decoy))
             fresh = table_order(clone(db))
+            table_order(apibuild.build(decoy))
+            again = table_order(db)
+            if again != after:
+                sh.violation('det', 'model-only:order-changes-when-other-databases-are-rendered-in-between',
+                             f'{after} then, after rendering an unrelated database, {again}',
+                             {'kind': 'modelonly', 'text': surface.render(doc, 0, surface.CANON)}, {'suite': 'modelonly'})
         except Exception as e:  # noqa
             cls, where = monitors.classify_exc(e)
             sh.violation('render', f'sql-raises-after-edit:{cls}@{where}', f'{cls}: {e}', None, {'suite': 'modelonly'})
